@@ -89,7 +89,10 @@ impl MemoryStruct {
 
                     for (reg_range, observer) in &self.observers {
 
-                        if written_range.start >= reg_range.end || written_range.end <= reg_range.start {
+                        // Notify only when the two ranges share at least one byte.
+                        let start = written_range.start.max(reg_range.start);
+                        let end = written_range.end.min(reg_range.end);
+                        if start >= end {
                             continue;
                         }
                         observer.update();
